@@ -302,6 +302,8 @@ impl KeyKeeperSharedState {
     }
 
     async fn get_key(&self) -> Result<Option<Key>> {
+        #[cfg(gpa_verif)]
+        crate::verif_hook::delay_point("get_key").await;
         let (response, receiver) = oneshot::channel();
         self.0
             .send(KeyKeeperAction::GetKey { response })
